@@ -139,7 +139,9 @@ def check_method(ix, rep, cls, f, label, rule='R-CACHE'):
                 def _clears(fn_node):
                     return any((isinstance(x, ast.Call) and isinstance(x.func, ast.Attribute) and x.func.attr == 'clear' and ast.unparse(x.func.value) == 'self.%s' % attr)
                                or (isinstance(x, ast.Assign) and any(ast.unparse(t) == 'self.%s' % attr for t in x.targets)) for x in ast.walk(fn_node))
-                clears = attr in ef.writes or attr in tef.writes or _clears(w.node) or any(E.base_attr(l_) == attr for l_ in getattr(tef, 'mutations', {}))
+                # renewing is re-binding the memo attribute or .clear() -- here or in what the method calls; *filling* it (a subscript store, which
+                # the memoised method itself does when the writer reaches it) is not
+                clears = attr in ef.writes or attr in tef.writes or _clears(w.node)
                 if not clears:
                     # the store goes through a property whose setter renews the memo
                     for d in changed:
